@@ -262,3 +262,42 @@ func IsInputError(err error) bool {
 	var ie *ops.InputError
 	return errors.As(err, &ie)
 }
+
+// RunOpReuse: one operator instance, Init once with cur's node, Apply prev's inputs (result
+// discarded, errors/panics ignored) and then cur's inputs.
+func RunOpReuse(prev, cur *OpCase) (res Result) {
+	phase := "get"
+	defer catch(&res, &phase)
+	op, err := opset13.GetOperator(cur.Op)
+	if err != nil {
+		res.Err, res.Phase = err, phase
+		return
+	}
+	phase = "init"
+	if err := op.Init(NodeForCase(cur)); err != nil {
+		res.Err, res.Phase = err, phase
+		return
+	}
+	func() {
+		defer func() { recover() }()
+		if vin, err := op.ValidateInputs(ToGs(TJsT(prev.Inputs))); err == nil {
+			op.Apply(vin)
+		}
+	}()
+	g := ToGs(TJsT(cur.Inputs))
+	phase = "validate"
+	vin, err := op.ValidateInputs(g)
+	if err != nil {
+		res.Err, res.Phase = err, phase
+		return
+	}
+	phase = "apply"
+	outs, err := op.Apply(vin)
+	if err != nil {
+		res.Err, res.Phase = err, phase
+		return
+	}
+	phase = "read"
+	readOuts(&res, outs)
+	return
+}
